@@ -597,6 +597,7 @@ func (x *Exec) inlineFunc(st *State, fd *ast.FuncDecl, callee *types.Func, recv 
 	}
 	x.frames = append(x.frames, fr)
 	callerDefers := st.defers
+	callerPC := append([]*Term{}, st.pc...)
 	body := st.clone()
 	body.defers = nil
 	end := x.execBlock(body, fd.Body.List)
@@ -626,7 +627,13 @@ func (x *Exec) inlineFunc(st *State, fd *ast.FuncDecl, callee *types.Func, recv 
 	}
 	// restore caller env (callee locals dropped), keep heap/pc/globals
 	st.defers = callerDefers
-	st.pc = m.pc
+	if spec {
+		// spec functions are total and effect-free: evaluating one does not
+		// restrict the caller's paths
+		st.pc = callerPC
+	} else {
+		st.pc = m.pc
+	}
 	st.heap = m.heap
 	st.globals = m.globals
 	st.alloc = m.alloc
@@ -780,7 +787,9 @@ func (x *Exec) applyContract(st *State, c *Contract, callee *types.Func, recv *V
 	}
 	// 1. preconditions
 	for _, r := range c.Requires {
+		x.skolem = true
 		g := x.evalClauseIn(st, r, specPos, q)
+		x.skolem = false
 		if x.noSafety == 0 {
 			x.oblige(st, "call-pre", fmt.Sprintf("call(%s).%s", q, r.Name), g, at.Pos(), nil)
 		}
